@@ -70,6 +70,126 @@ def received(sc):
     return parts, status
 
 
+def client_fake(rep, rng, tier):
+    """src/net/client.rs against a scripted server: the model's client over the same reply stream"""
+    n = {"quick": 150, "thorough": 2000}[tier]
+    sessions = [N.gen_fake_session(rng.fork()) for _ in range(n)]
+    kinds = {}
+    text = []
+    for i, (calls, ks) in enumerate(sessions):
+        for k in ks:
+            kinds[k] = kinds.get(k, 0) + 1
+        text.append("CASE f%d" % i)
+        for q, segs, close in calls:
+            text.append("call %s | %d %s%s" % (N.api_words(q), len(G.enc(N.req_frame(q))), " ".join(G.rawhex(s) for s in segs), " close" if close else ""))
+        text.append("END")
+    shards = chunks(list(range(n)), NCPU)
+    import concurrent.futures as cf
+    from common import harness_run
+
+    def run(sh):
+        lines, cur = [], None
+        for i in sh:
+            j0 = text.index("CASE f%d" % i)
+            j1 = text.index("END", j0)
+            lines += text[j0:j1 + 1]
+        rc, out = harness_run(["client"], "\n".join(lines) + "\n", timeout=600)
+        by, cur = {}, None
+        for l in out.split("\n"):
+            if l.startswith("case "):
+                cur = l[5:].strip()
+                by[cur] = []
+            elif cur is not None and l:
+                by[cur].append(l)
+        return by
+    real = {}
+    with cf.ThreadPoolExecutor(max_workers=NCPU) as ex:
+        for by in ex.map(run, shards):
+            real.update(by)
+    terms = ["render_clients [%s]" % "; ".join(
+        "([%s], [%s])" % ("; ".join(N.coq_req(q, coq_bytes) for q, _, _ in sessions[i][0]),
+                          "; ".join(coq_bytes(s) for _, segs, _ in sessions[i][0] for s in segs)) for i in sh) for sh in shards]
+    res, logs = coq_eval("C06", "Resp.Frame Resp.Conn Resp.Handler Resp.Client Resp.Render", terms)
+    ndis, neval = 0, 0
+    ok_eval = True
+    for sh, r in zip(shards, res):
+        if r is None:
+            ok_eval = False
+            continue
+        blocks = r.split("\nend")
+        for i, blk in zip(sh, blocks):
+            want = [l for l in blk.split("\n") if l and l != "end"] + ["end"]
+            got = real.get("f%d" % i, [])
+            neval += 1
+            if got != want:
+                ndis += 1
+                rep.disagree.append({"obligation": "correspondence client: model = src/net/client.rs", "calls": [(str(q)[:60], [G.hexs(s) for s in segs], close) for q, segs, close in sessions[i][0]],
+                                     "kinds": sessions[i][1], "model": want[:14], "impl": got[:14]})
+    for l in logs[:1]:
+        log(l)
+    rep.obligation("client model evaluates on every session", ok_eval)
+    rep.obligation("correspondence client: model = the crate's client against a scripted server", ndis == 0 and ok_eval)
+    return {"sessions": neval, "reply_kinds": kinds}
+
+
+def client_real(rep, rng, tier):
+    """the crate's client against the crate's server over a real store: results = the map's answers = the composed model"""
+    n = {"quick": 40, "thorough": 400}[tier]
+    scs = []
+    for i in range(n):
+        r = rng.fork()
+        reqs, keys = N.gen_reqs(r, r.rng(1, 12))
+        reqs = reqs[:40]
+        ops = ["api c connect"] + ["api c " + N.api_words(q) for q in reqs] + ["storeget %s" % G.rawhex(k) for k in keys]
+        sc = N.Scenario("a%d" % i, "maxconn=4", ops)
+        sc.reqs, sc.keys = reqs, keys
+        scs.append(sc)
+    died = N.run_scenarios(scs)
+    shards = chunks(scs, NCPU)
+    terms = ["render_apis [%s]" % "; ".join("[%s]" % "; ".join(N.coq_req(q, coq_bytes) for q in sc.reqs) for sc in sh) for sh in shards]
+    res, logs = coq_eval("C06", "Resp.Frame Resp.Conn Resp.Handler Resp.Client Resp.Render", terms)
+    model = []
+    for sh, r in zip(shards, res):
+        ls = r.split("\n") if (r is not None and sh) else []
+        model.extend(ls if len(ls) == len(sh) else [None] * len(sh))
+    rep.obligation("composed client+handler model evaluates on every session", all(m is not None for m in model))
+    ndis = 0
+    for sc, m in zip(scs, model):
+        if sc.name in died or not sc.out or sc.out[0] != "start ok":
+            rep.failing.append({"what": "server process died or did not start (client sessions)", "scenario": sc.ops[:12], "out": sc.out[:12]})
+            continue
+        # the map's answers, independently of the model
+        mp, want = {}, []
+        for q in sc.reqs:
+            if q[0] == "GET":
+                want.append("some:" + G.hexs(mp[q[1]]) if q[1] in mp else "none")
+            elif q[0] == "SET":
+                mp[q[1]] = q[2]
+                want.append("ok")
+            else:
+                c = 0
+                for k in q[1]:
+                    if k in mp:
+                        del mp[k]
+                        c += 1
+                want.append("int:%d" % c)
+        got = sc.out[2:2 + len(sc.reqs)]
+        store = sc.out[2 + len(sc.reqs):2 + len(sc.reqs) + len(sc.keys)]
+        want_store = [("some:" + G.hexs(mp[k]) if k in mp else "none") for k in sc.keys]
+        if sc.out[1] != "ok" or got != want:
+            rep.failing.append({"what": "the crate's client against the crate's server does not return the map's answers",
+                                "requests": [str(q)[:80] for q in sc.reqs], "want": want[:20], "got": got[:20]})
+        elif store != want_store:
+            rep.failing.append({"what": "store contents after a client session differ from the map", "requests": [str(q)[:80] for q in sc.reqs],
+                                "want": want_store, "got": store})
+        if m is not None and m.split(";") != got:
+            ndis += 1
+            rep.disagree.append({"obligation": "correspondence client+server: composed model = crate", "requests": [str(q)[:80] for q in sc.reqs],
+                                 "model": m[:300], "impl": ";".join(got)[:300]})
+    rep.obligation("correspondence client+server: composed model = the crate's client against the crate's server", ndis == 0)
+    return {"sessions": len(scs)}
+
+
 def main(tier, seed):
     rep = Report("C06", tier, seed)
     rng = Rng(seed)
@@ -137,6 +257,8 @@ def main(tier, seed):
                 rep.disagree.append({"obligation": "correspondence handler: model = server", "requests": [str(q)[:80] for q in sc.reqs],
                                      "model": m[:300], "impl": (impl_out + "|" + impl_store)[:300]})
     rep.obligation("correspondence handler: model = server on every scenario", ndis == 0)
+    cov_fake = client_fake(rep, rng, tier)
+    cov_real = client_real(rep, rng, tier)
     rep.coverage.update({
         "checker_cmd": "make -C coq Props/C06.vo (coqc 8.16.1) ; bin/check C06",
         "trusted_base": TRUSTED,
@@ -146,6 +268,7 @@ def main(tier, seed):
                 "(each segment completes one request and carries a prefix of the next; its reply must arrive before the rest is sent); distinct "
                 "= (command kinds, segmentation, pipelining)",
         "modes": modes,
+        "client_sessions_scripted_server": cov_fake, "client_sessions_real_server": cov_real,
         "samples": [{"requests": [str(q)[:60] for q in scs[0].reqs], "ops": scs[0].ops[:8], "out": (scs[0].out or [])[:8]}],
         "proof": {"file": "coq/Props/C06.v", "theorems": pr["theorems"], "axioms": pr["axioms"]},
     })
@@ -157,6 +280,6 @@ def main(tier, seed):
 
 TRUSTED = [
     "Coq 8.16.1 kernel, coqc, vm_compute",
-    "coq/Resp/{Frame,Conn,Handler}.v, tied to src/net/{server,command,connection}.rs by differential execution over TCP",
-    "harness/src/server.rs, lib/netlib.py, lib/c06.py; tokio, TCP: modelled, not verified",
+    "coq/Resp/{Frame,Conn,Handler,Client}.v, tied to src/net/{server,command,connection,client}.rs by differential execution over TCP",
+    "harness/src/{server,client}.rs, lib/netlib.py, lib/c06.py; tokio, TCP: modelled, not verified",
 ]
